@@ -79,7 +79,8 @@ RULE = ('crystals built from literal fractional coordinates: fcc (setting f and 
         'rhombohedral (t1, t2) cells with Burgers vectors that are not integer in the conventional cell; constructor '
         'tolerance 1e-8 / 1e-6 / 1e-7 / 1e-10; configurations: sizemults None / even / odd / zero / negative, list or '
         'tuple, not three integers ((lo, hi) pairs, floats, strings, 2 or 4 entries), amin/bmin/cmin (exact expected '
-        'multiplier); the shift: every way of naming it (index, negative index, index out of range, Cartesian vector, '
+        'multiplier; minima that are exactly k = 1..6 periods of the rotated cell or 1 ulp / 1e-13 / 1e-9 / 1e-3 below / '
+        'above, along and across the line, monopole and periodicarray); the shift: every way of naming it (index, negative index, index out of range, Cartesian vector, '
         'box-relative vector, vector and index together, nothing) crossed with every value of the shiftscale flag '
         '(absent / False / True) and with where it is given (in the call on a shared object; at construction of a fresh '
         'object, optionally followed by set_shift(), with nothing / only the flag / another shift in the call); the '
@@ -109,7 +110,8 @@ ASSUMPTIONS = [
     'ceil(amin / a), boundarywidth * ucell.a and center . rcell.vects are computed by the harness in floats and passed to '
     'the mono / array model runs; the centre and the width are checked on every configuration against the model\'s own '
     'exact conversion (resolveCenter, resolveWidth; driver op params), ceil(amin / a) against an exact rational ceiling '
-    'in the oracle (ratios within 1e-12 of an integer exempt)',
+    'in the oracle (decided on exact multiples; the rounded quotient\'s ceiling accepted too where it differs, i.e. for '
+    'ratios within half an ulp above a whole number)',
 ]
 TRUSTED = ['numpy array arithmetic in the implementation run', 'the elastic solver (C12) as a black box supplying u',
            'System.supersize / System.wrap models of C04 / C05 (imported definitions, re-tied here through the reference and '
@@ -473,6 +475,33 @@ def gen_shift_spec(rng, np, d, named, onplane=False):
     return spec
 
 
+MIN_HAIRS = [0.0, 0.0, 0.0, 0.0, 'ulp-', 'ulp+', -1e-13, 1e-13, -1e-9, 1e-9, -1e-3, 1e-3]
+
+
+def gen_min_value(rng, L, kmax=6):
+    """a minimum length that is EXACTLY k periods L of the rotated cell (k = 1..kmax, odd ones favoured; exactly k * L as a
+    rational whenever that product is a double, otherwise the double next to it), or a hair (1 ulp, 1e-13, 1e-9, 1e-3
+    relative) below / above it: the smallest multiplier reaching the minimum is k on and below the multiple, k + 1 above."""
+    k = rng.choice([k_ for k_ in (1, 1, 2, 3, 3, 4, 5, 5, 6) if k_ <= kmax])
+    h = rng.choice(MIN_HAIRS)
+    v = k * float(L)
+    if h == 'ulp-':
+        v = math.nextafter(v, 0.0)
+    elif h == 'ulp+':
+        v = math.nextafter(v, math.inf)
+    elif h:
+        v = v * (1.0 + h)
+    return v
+
+
+def expected_min_mults(v, L):
+    """the multipliers a minimum length v > 0 may give for a period L (both doubles): the smallest m with m * L >= v in
+    exact rational arithmetic, and - only when the correctly rounded quotient v / L lands on a whole number although the
+    exact one lies within half an ulp above it - that whole number too."""
+    r = F(float(v)) / F(float(L))
+    return {math.ceil(r), math.ceil(float(v) / float(L))}
+
+
 def gen_config(rng, d, kind, nmax=220):
     """random arguments of monopole() / periodicarray()."""
     np = _np()
@@ -503,8 +532,12 @@ def gen_config(rng, d, kind, nmax=220):
         if rng.random() < 0.15:
             cfg['as_tuple'] = True                           # the documented type
     for nm, L in (('amin', d.rcell.box.a), ('bmin', d.rcell.box.b), ('cmin', d.rcell.box.c)):
-        if rng.random() < 0.2 and nat <= 30:
-            cfg[nm] = float(round(rng.uniform(0.5, 2.6 if nat <= 12 else 1.4) * L, 2))
+        if rng.random() < 0.3 and nat <= 30:
+            if rng.random() < 0.55:
+                # exactly k periods of the rotated cell, or a hair off (the multiplier is the smallest reaching the minimum)
+                cfg[nm] = gen_min_value(rng, L, 6 if nat <= 4 else 4 if nat <= 12 else 2)
+            else:
+                cfg[nm] = float(round(rng.uniform(0.5, 2.6 if nat <= 12 else 1.4) * L, 2))
     # ---- the shift: every way of naming it x every value of the shiftscale flag x where it is given ------------
     fresh = rng.random() < 0.38
     if not fresh:
@@ -2119,6 +2152,7 @@ def _check_mults(ctx, np, d, cfg, base, info, label, key):
     sm = cfg.get('sizemults')
     rv = np.asarray(d.rcell.box.vects, dtype=float)
     bv = np.asarray(base.box.vects, dtype=float)
+    periods = (float(d.rcell.box.a), float(d.rcell.box.b), float(d.rcell.box.c))
     for i, nm in enumerate(('amin', 'bmin', 'cmin')):
         L = float(np.linalg.norm(rv[i]))
         got = float(np.linalg.norm(bv[i])) / L
@@ -2129,19 +2163,67 @@ def _check_mults(ctx, np, d, cfg, base, info, label, key):
         got = int(round(got))
         want = (1 if i == line else 2) if sm is None else int(sm[i])
         v = cfg.get(nm, 0.0)
+        wants = {want}
         if v > 0.0:
-            r = F(float(v)) / F(L)
-            q = math.ceil(r)
-            if min(abs(r - q), abs(r - (q - 1))) < F(1, 10 ** 12) * max(1, q):
-                continue                                  # amin a whole number of cells within rounding: either count
-            if i != line and q % 2:
-                q += 1
-            want = max(want, q)
-        if got != want:
-            ctx.violate(key + ':multipliers', f'{label}: the reference system has {got} cells along box vector {i} (length '
-                        f'{L}); sizemults {sm}, {nm} = {cfg.get(nm, 0.0)} ask for {want}', info)
+            # the smallest multiplier whose length reaches the minimum, the period being the rotated cell's a / b / c as the
+            # object reports it; decided exactly (a minimum of EXACTLY k periods asks for k, the next double above for k + 1);
+            # two answers only where the rounded quotient is a whole number and the exact one is not (half an ulp)
+            wants = {max(want, q + 1 if (i != line and q % 2) else q) for q in expected_min_mults(v, periods[i])}
+        if got not in wants:
+            ctx.violate(key + ':multipliers', f'{label}: the reference system has {got} cells along box vector {i} (period '
+                        f'{periods[i]!r}); sizemults {sm}, {nm} = {cfg.get(nm, 0.0)!r} (= {float(v) / periods[i]!r} periods) '
+                        f'ask for {sorted(wants)}', info)
             return False
     return True
+
+
+def _oracle_minsizes(ctx, np, d, info, label, canon, ncalls, stats):
+    """amin / bmin / cmin on their own: minima that are exactly k = 1..6 periods of the rotated cell, or a hair below /
+    above, along the line (every whole multiplier allowed) and across it (even ones only), with default / minimal / larger
+    sizemults, for monopole and periodicarray; the multipliers of the reference system against `_check_mults`."""
+    rng = ctx.rng
+    line = d.lineindex
+    nat = d.rcell.natoms
+    if nat > 30:
+        return
+    names = ('amin', 'bmin', 'cmin')
+    periods = (float(d.rcell.box.a), float(d.rcell.box.b), float(d.rcell.box.c))
+    for _ in range(ncalls):
+        kind = rng.choice(['mono', 'array'])
+        cfg = {'kind': kind}
+        q = rng.random()
+        if q < 0.4:
+            cfg['sizemults'] = None
+        else:
+            sm = [2, 2, 2]
+            sm[line] = rng.choice([1, 1, 2, 3])
+            if q > 0.8:
+                sm[(line + rng.choice([1, 2])) % 3] = 4
+            cfg['sizemults'] = sm
+        kmax = 6 if nat <= 4 else 4 if nat <= 12 else 2
+        dirs = [line] if rng.random() < 0.5 else [rng.randrange(3)]
+        if rng.random() < 0.3:
+            dirs = sorted(set(dirs + [rng.randrange(3)]))
+        for i in dirs:
+            cfg[names[i]] = gen_min_value(rng, periods[i], kmax)
+        res = run_config(d, cfg)
+        ctx.stats.case('search:minsize:' + kind, canon + (tuple(sorted((a, str(b)) for a, b in cfg.items())),),
+                       nontrivial=(res[0] == 'ok'))
+        stats['minsize'] = stats.get('minsize', 0) + 1
+        lab = label + ' ' + str(cfg)
+        cinfo = dict(info, cfg=cfg)
+        if res[0] == 'err':
+            if res[1] == 'type':
+                ctx.violate(kind + ':multipliers-refused', f'{lab}: valid sizemults / minimum lengths refused: {res[2]}', cinfo)
+            stats['minsize_refused'] = stats.get('minsize_refused', 0) + 1
+            continue
+        for i in dirs:
+            r = F(cfg[names[i]]) / F(periods[i])
+            stats['minsize_exact_odd' if r.denominator == 1 and r % 2 == 1 else
+                  'minsize_exact_even' if r.denominator == 1 else 'minsize_off'] = \
+                stats.get('minsize_exact_odd' if r.denominator == 1 and r % 2 == 1 else
+                          'minsize_exact_even' if r.denominator == 1 else 'minsize_off', 0) + 1
+        _check_mults(ctx, np, d, cfg, res[1], cinfo, lab, kind)
 
 
 def _check_boundary(ctx, np, d, cfg, base, disl, shape, width, info, label, key):
@@ -2657,6 +2739,7 @@ def _search_case(ctx, case, raw, ncfg, stats):
                         f'the equivalent 3-index input gives uvws {uv3.tolist()}, rcell {np.asarray(d3.rcell.box.vects).tolist()}', info)
             return
     _oracle_shifts(ctx, d, info, label)
+    _oracle_minsizes(ctx, np, d, info, label, canon, ncfg, stats)
     for k in range(ncfg):
         kind = 'mono' if k % 2 == 0 else 'array'
         cfg = gen_config(rng, d, kind)
